@@ -17,9 +17,15 @@ import DdoModel.Examples.TalentschedDp
       `MergeOkSymStmt` (the symmetric variant `mergeSym`): `mergeOkSymStmt`;
     * `DpExactStmt` (initial value + value-to-go of the root = minus the specification's minimum): `TalentschedProofsExact.
       dpExactStmt`, and its prefix form `DpExactPrefixStmt` / `dpExactPrefixStmt`.
-    STILL stated only (the driver checks it pointwise on every generated case): `RubAdmissibleStmt`; proved of it:
-    `TalentschedProofsRub.rubAdmissible_partial` (the states where no actor is on location, the root among them: the bound is
-    0 and every value-to-go is ≤ 0), and `wfRel_of_rubAdmissible`: every OTHER clause of `WfRel` holds. -/
+    * `RubAdmissibleStmt` (the rough upper bound, evaluated on exact rationals, dominates the value-to-go of EVERY valid state,
+      exact or merged): `TalentschedProofsRubFull.rubAdmissibleStmt` (and `rubAdmissible_inv` for every state with `Inv`), from
+      the single-machine argument of Garcia de la Banda, Stuckey & Chu (`TalentschedProofsSmith.lean`: Smith's rule and the
+      one-scene inequality; `TalentschedProofsPath.lean`: what every completion pays at least; `TalentschedProofsAdm.lean`:
+      the bound along any order of the scenes).  Earlier partial result: `TalentschedProofsRub.rubAdmissible_partial` (nobody on
+      location).  With it `talentsched_wfRel` (every clause of `WfRel`) and the closed corollary
+      `TalentschedProofsMain.talentsched_relaxed_ub` against the specification `Talentsched.spec`.
+    NOT covered by any of this: the shipped code evaluates the bound in `f64` (see `TalentschedDp.lean`); the theorems are about
+    the exact evaluation `rubQ?`. -/
 namespace Ddo.Examples.TalentschedModel
 open Ddo Ddo.Examples Ddo.Examples.Util
 
@@ -136,7 +142,7 @@ theorem merge_not_relaxation_of_first :
     mergeOkAt witness 1 { scenes := 11, maybe := 0 } { scenes := 10, maybe := 4 } 0 0 = false := by decide
 
 -- ------------------------------------------------------------------------------------------------------------------
--- statements (checked pointwise by the driver); all but `RubAdmissibleStmt` are proved in `TalentschedProofs*.lean`
+-- statements (checked pointwise by the driver); all are proved in `TalentschedProofs*.lean`
 
 /-- a well-formed instance: `k` rows of `n` flags, one cost ≥ 1 per actor, at least `n` durations ≥ 0 -/
 structure TabOk (T : Tab) : Prop where
@@ -147,7 +153,7 @@ structure TabOk (T : Tab) : Prop where
   act : T.act = (List.range T.n).map (actOf T.k T.flags)
 
 /-- `RubOk`: the rough upper bound (exact rational evaluation) dominates the value-to-go of every valid state of a depth.
-    NOT PROVED (partial: `TalentschedProofsRub.rubAdmissible_partial`) -/
+    PROVED: `TalentschedProofsRubFull.rubAdmissibleStmt` (earlier partial result: `TalentschedProofsRub.rubAdmissible_partial`) -/
 def RubAdmissibleStmt (T : Tab) : Prop :=
   TabOk T → ∀ (d : Nat) (s : St) (r : Int), validB T d s = true → rub? T s = some r → bestRem T d s ≤ (some r : EInt)
 
